@@ -967,6 +967,43 @@ class _Mangler(ast.NodeTransformer):
         node.arg = self.mangle(node.arg)
         return node
 
+    def visit_FunctionDef(self, node):
+        self.generic_visit(node)
+        node.name = self.mangle(node.name)
+        return node
+
+    visit_AsyncFunctionDef = visit_FunctionDef
+
+    def visit_ClassDef(self, node):
+        # The name of a nested class is mangled by the outer one; what is
+        # inside it, by itself
+        node.name = self.mangle(node.name)
+        node.bases = [self.visit(b) for b in node.bases]
+        node.keywords = [self.visit(k) for k in node.keywords]
+        node.decorator_list = [self.visit(d) for d in node.decorator_list]
+        inner = _Mangler(node.name)
+        node.body = [inner.visit(stmt) for stmt in node.body]
+        return node
+
+    def visit_ExceptHandler(self, node):
+        self.generic_visit(node)
+        node.name = self.mangle(node.name)
+        return node
+
+    def visit_alias(self, node):
+        # import __x as __y / from m import __x: the name that gets bound
+        if node.asname is not None:
+            node.asname = self.mangle(node.asname)
+        elif self.mangle(node.name) != node.name:
+            node.asname = self.mangle(node.name)
+        return node
+
+    def visit_Global(self, node):
+        node.names = [self.mangle(n) for n in node.names]
+        return node
+
+    visit_Nonlocal = visit_Global
+
 
 def recode(
     fn, ovld, recurse_sym, call_next_sym, newname, slot=None, own_syms=()
@@ -999,11 +1036,18 @@ def recode(
         shift = -1
     else:
         tree = ast.parse(src)
-    qualparts = fn.__qualname__.split(".")
-    if len(qualparts) >= 2 and qualparts[-2] != "<locals>":
-        # A method of a class: its private names (self.__x) were mangled by
-        # the compiler of the class body, which is not there any more
-        tree = _Mangler(qualparts[-2]).visit(tree)
+    # Inside a class - also further inside, in a function defined in one of
+    # its methods - private names (self.__x) were mangled by the compiler of
+    # the class body, which is not there any more. In a qualified name, the
+    # parts that are not followed by <locals> are classes.
+    outer = fn.__qualname__.split(".")[:-1]
+    classes = [
+        part
+        for part, after in zip(outer, [*outer[1:], None])
+        if part != "<locals>" and after != "<locals>"
+    ]
+    if classes:
+        tree = _Mangler(classes[-1]).visit(tree)
     lookup_prefix = f"___TYPE{ovld.id}_"
     converter = NameConverter(
         lookup_prefix=lookup_prefix,
